@@ -23,6 +23,8 @@ Record cx := {
   dl_past : bool;         (* the wrapped connection's deadline is in the past *)
   ready : bool;           (* the wrapped operation can complete with data *)
   half : bool;            (* the wrapped write has transferred part of its data and waits for the peer to take the rest *)
+  failing : bool;         (* the wrapped connection is about to fail an operation with an error of its own (not a timeout) *)
+  op_err : bool;          (* the wrapped operation failed with that error *)
   op_n : Z;               (* result of the wrapped operation: bytes (1 stands for "some") *)
   op_timeout : bool;      (* the wrapped operation failed with a timeout *)
   ret_ctx_err : bool;     (* the operation returned the context's error *)
@@ -31,13 +33,13 @@ Record cx := {
 
 Definition cx0 : cx :=
   {| mp := M0; wp := WNone; cancelled := false; done_closed := false; dl_past := false; ready := false; half := false;
-     op_n := 0; op_timeout := false; ret_ctx_err := false; ret_n := 0 |}.
+     failing := false; op_err := false; op_n := 0; op_timeout := false; ret_ctx_err := false; ret_n := 0 |}.
 
 Definition set_m (s : cx) (p : mpc) : cx :=
-  {| mp := p; wp := wp s; cancelled := cancelled s; done_closed := done_closed s; dl_past := dl_past s; ready := ready s; half := half s;
+  {| mp := p; wp := wp s; cancelled := cancelled s; done_closed := done_closed s; dl_past := dl_past s; ready := ready s; half := half s; failing := failing s; op_err := op_err s;
      op_n := op_n s; op_timeout := op_timeout s; ret_ctx_err := ret_ctx_err s; ret_n := ret_n s |}.
 Definition set_w (s : cx) (p : wpc) : cx :=
-  {| mp := mp s; wp := p; cancelled := cancelled s; done_closed := done_closed s; dl_past := dl_past s; ready := ready s; half := half s;
+  {| mp := mp s; wp := p; cancelled := cancelled s; done_closed := done_closed s; dl_past := dl_past s; ready := ready s; half := half s; failing := failing s; op_err := op_err s;
      op_n := op_n s; op_timeout := op_timeout s; ret_ctx_err := ret_ctx_err s; ret_n := ret_n s |}.
 
 (* events: 0-9 main steps, 10-19 watcher steps, 20-29 environment *)
@@ -49,7 +51,10 @@ Inductive cev :=
 | EN_cancel | EN_ready
 | EM_next                              (* the caller starts the next operation with a fresh context *)
 | EM_op_partial                        (* the wrapped write returns some of the bytes and a timeout error *)
-| EN_half.                             (* the peer takes part of a pending write *)
+| EN_half                              (* the peer takes part of a pending write *)
+| EM_op_data0                          (* the wrapped operation completes an empty transfer (zero-length datagram or write) *)
+| EM_op_err                            (* the wrapped operation fails with an error of the wrapped connection's own *)
+| EN_fail.                             (* the wrapped connection gets ready to fail an operation (transient error) *)
 
 Definition cxstep (s : cx) (e : cev) : option cx :=
   match e with
@@ -61,7 +66,7 @@ Definition cxstep (s : cx) (e : cev) : option cx :=
       match mp s with
       | MOp => if ready s then
                  Some {| mp := M6; wp := wp s; cancelled := cancelled s; done_closed := done_closed s; dl_past := dl_past s;
-                         ready := false; half := false; op_n := 1; op_timeout := false; ret_ctx_err := false; ret_n := 0 |}
+                         ready := false; half := false; failing := failing s; op_err := false; op_n := 1; op_timeout := false; ret_ctx_err := false; ret_n := 0 |}
                else None
       | _ => None
       end
@@ -69,21 +74,21 @@ Definition cxstep (s : cx) (e : cev) : option cx :=
       match mp s with
       | MOp => if dl_past s && negb (half s) then
                  Some {| mp := M6; wp := wp s; cancelled := cancelled s; done_closed := done_closed s; dl_past := dl_past s;
-                         ready := ready s; half := half s; op_n := 0; op_timeout := true; ret_ctx_err := false; ret_n := 0 |}
+                         ready := ready s; half := half s; failing := failing s; op_err := false; op_n := 0; op_timeout := true; ret_ctx_err := false; ret_n := 0 |}
                else None
       | _ => None
       end
   | EM_close_done =>
       match mp s with
       | M6 => Some {| mp := M7; wp := wp s; cancelled := cancelled s; done_closed := true; dl_past := dl_past s;
-                      ready := ready s; half := half s; op_n := op_n s; op_timeout := op_timeout s; ret_ctx_err := false; ret_n := 0 |}
+                      ready := ready s; half := half s; failing := failing s; op_err := op_err s; op_n := op_n s; op_timeout := op_timeout s; ret_ctx_err := false; ret_n := 0 |}
       | _ => None
       end
   | EM_wait_return =>
       (* wg.Wait returns once the watcher has exited; then: if e := ctx.Err(); e != nil && n == 0 { err = e } *)
       match mp s, wp s with
       | M7, WEnd => Some {| mp := MRet; wp := WEnd; cancelled := cancelled s; done_closed := done_closed s; dl_past := dl_past s;
-                            ready := ready s; half := half s; op_n := op_n s; op_timeout := op_timeout s;
+                            ready := ready s; half := half s; failing := failing s; op_err := op_err s; op_n := op_n s; op_timeout := op_timeout s;
                             ret_ctx_err := cancelled s && (op_n s =? 0); ret_n := op_n s |}
       | _, _ => None
       end
@@ -92,25 +97,30 @@ Definition cxstep (s : cx) (e : cev) : option cx :=
   | EW_set_past =>
       match wp s with
       | WSetPast => Some {| mp := mp s; wp := W5; cancelled := cancelled s; done_closed := done_closed s; dl_past := true;
-                            ready := ready s; half := half s; op_n := op_n s; op_timeout := op_timeout s; ret_ctx_err := ret_ctx_err s; ret_n := ret_n s |}
+                            ready := ready s; half := half s; failing := failing s; op_err := op_err s; op_n := op_n s; op_timeout := op_timeout s; ret_ctx_err := ret_ctx_err s; ret_n := ret_n s |}
       | _ => None
       end
   | EW_recv_done => match wp s with W5 => if done_closed s then Some (set_w s WRestore) else None | _ => None end
   | EW_restore =>
       match wp s with
       | WRestore => Some {| mp := mp s; wp := WEnd; cancelled := cancelled s; done_closed := done_closed s; dl_past := false;
-                            ready := ready s; half := half s; op_n := op_n s; op_timeout := op_timeout s; ret_ctx_err := ret_ctx_err s; ret_n := ret_n s |}
+                            ready := ready s; half := half s; failing := failing s; op_err := op_err s; op_n := op_n s; op_timeout := op_timeout s; ret_ctx_err := ret_ctx_err s; ret_n := ret_n s |}
       | _ => None
       end
   | EN_cancel =>
-      Some {| mp := mp s; wp := wp s; cancelled := true; done_closed := done_closed s; dl_past := dl_past s; ready := ready s; half := half s;
+      (* a context that ends after its operation has returned is of no consequence: [cancelled] means "ended before the return" *)
+      match mp s with
+      | MRet => Some s
+      | _ =>
+      Some {| mp := mp s; wp := wp s; cancelled := true; done_closed := done_closed s; dl_past := dl_past s; ready := ready s; half := half s; failing := failing s; op_err := op_err s;
               op_n := op_n s; op_timeout := op_timeout s; ret_ctx_err := ret_ctx_err s; ret_n := ret_n s |}
+      end
   | EN_ready =>
-      Some {| mp := mp s; wp := wp s; cancelled := cancelled s; done_closed := done_closed s; dl_past := dl_past s; ready := true; half := half s;
+      Some {| mp := mp s; wp := wp s; cancelled := cancelled s; done_closed := done_closed s; dl_past := dl_past s; ready := true; half := half s; failing := failing s; op_err := op_err s;
               op_n := op_n s; op_timeout := op_timeout s; ret_ctx_err := ret_ctx_err s; ret_n := ret_n s |}
   | EM_next =>
       match mp s with
-      | MRet => Some {| mp := M0; wp := WNone; cancelled := false; done_closed := false; dl_past := dl_past s; ready := ready s; half := false;
+      | MRet => Some {| mp := M0; wp := WNone; cancelled := false; done_closed := false; dl_past := dl_past s; ready := ready s; half := false; failing := failing s; op_err := false;
                         op_n := 0; op_timeout := false; ret_ctx_err := false; ret_n := 0 |}
       | _ => None
       end
@@ -118,14 +128,36 @@ Definition cxstep (s : cx) (e : cev) : option cx :=
       match mp s with
       | MOp => if dl_past s && half s then
                  Some {| mp := M6; wp := wp s; cancelled := cancelled s; done_closed := done_closed s; dl_past := dl_past s;
-                         ready := ready s; half := false; op_n := 1; op_timeout := true; ret_ctx_err := false; ret_n := 0 |}
+                         ready := ready s; half := false; failing := failing s; op_err := false; op_n := 1; op_timeout := true; ret_ctx_err := false; ret_n := 0 |}
                else None
       | _ => None
       end
+  | EM_op_data0 =>
+      match mp s with
+      | MOp => if ready s then
+                 Some {| mp := M6; wp := wp s; cancelled := cancelled s; done_closed := done_closed s; dl_past := dl_past s;
+                         ready := false; half := false; failing := failing s; op_err := false; op_n := 0; op_timeout := false;
+                         ret_ctx_err := false; ret_n := 0 |}
+               else None
+      | _ => None
+      end
+  | EM_op_err =>
+      match mp s with
+      | MOp => if failing s then
+                 Some {| mp := M6; wp := wp s; cancelled := cancelled s; done_closed := done_closed s; dl_past := dl_past s;
+                         ready := ready s; half := false; failing := false; op_err := true; op_n := 0; op_timeout := false;
+                         ret_ctx_err := false; ret_n := 0 |}
+               else None
+      | _ => None
+      end
+  | EN_fail =>
+      Some {| mp := mp s; wp := wp s; cancelled := cancelled s; done_closed := done_closed s; dl_past := dl_past s; ready := ready s;
+              half := half s; failing := true; op_err := op_err s; op_n := op_n s; op_timeout := op_timeout s;
+              ret_ctx_err := ret_ctx_err s; ret_n := ret_n s |}
   | EN_half =>
       match mp s with
       | MOp => Some {| mp := mp s; wp := wp s; cancelled := cancelled s; done_closed := done_closed s; dl_past := dl_past s;
-                       ready := ready s; half := true; op_n := op_n s; op_timeout := op_timeout s; ret_ctx_err := ret_ctx_err s;
+                       ready := ready s; half := true; failing := failing s; op_err := op_err s; op_n := op_n s; op_timeout := op_timeout s; ret_ctx_err := ret_ctx_err s;
                        ret_n := ret_n s |}
       | _ => None
       end
@@ -133,7 +165,8 @@ Definition cxstep (s : cx) (e : cev) : option cx :=
 
 Definition all_events : list cev :=
   [EM_lock; EM_check; EM_add; EM_go; EM_op_data; EM_op_timeout; EM_close_done; EM_wait_return;
-   EW_ctx; EW_done; EW_set_past; EW_recv_done; EW_restore; EN_cancel; EN_ready; EM_next; EM_op_partial; EN_half].
+   EW_ctx; EW_done; EW_set_past; EW_recv_done; EW_restore; EN_cancel; EN_ready; EM_next; EM_op_partial; EN_half;
+   EM_op_data0; EM_op_err; EN_fail].
 
 Fixpoint cxrun (s : cx) (h : list cev) : option cx :=
   match h with
@@ -145,10 +178,14 @@ Fixpoint cxrun (s : cx) (h : list cev) : option cx :=
 Definition ev_of_code (c : Z) : option cev :=
   nth_error all_events (Z.to_nat c).
 
-(* a log entry is [code] or, for the return of an operation, [7; n; context error?]: the result the
-   implementation reported, which must be the model's *)
+(* the error an operation returns is the context's (ret_ctx_err), else the wrapped operation's own *)
+Definition ret_own_err (s : cx) : bool := op_err s && negb (ret_ctx_err s).
+
+(* a log entry is [code] or, for the return of an operation, [7; n; context error?; the wrapped connection's own error?]:
+   the result the implementation reported, which must be the model's *)
 Definition result_matches (s : cx) (extra : zs) : bool :=
   match extra with
+  | [n; ce; oe] => (ret_n s =? n) && (b2z (ret_ctx_err s) =? ce) && (b2z (ret_own_err s) =? oe)
   | [n; ce] => (ret_n s =? n) && (b2z (ret_ctx_err s) =? ce)
   | _ => true
   end.
